@@ -468,6 +468,25 @@ def model_task(task, ybin, root, prop):
                         long_stream = True
                 parts = sw.gen_partitions(proto, vals, r)
                 size = len(cx.codec.encode_stream(proto, cx.ns, model.schema(proto), vals, parts))
+                if prop in ("C01", "C03") and proto.steps[0][0] == sw.PAD_STEP and isinstance(vals[0], str) and r.fork("endalign").chance(0.3):
+                    # the whole stream ends on (or one or two bytes next to) a multiple of the staging-buffer size: the reader's last
+                    # refill is a full one, and the refill after it delivers nothing
+                    er_ = r.fork("endalign2")
+                    target_ = -(-size // sw.BUF) * sw.BUF + er_.choice([0, 0, 0, 0, -1, 1, 2])
+                    if target_ < size:
+                        target_ += sw.BUF
+                    for _ in range(5):
+                        if size == target_:
+                            break
+                        if size < target_:
+                            vals[0] = vals[0] + "p" * (target_ - size)
+                        elif len(vals[0]) >= size - target_:
+                            vals[0] = vals[0][:len(vals[0]) - (size - target_)]
+                        else:
+                            break
+                        size = len(cx.codec.encode_stream(proto, cx.ns, model.schema(proto), vals, parts))
+                    if size % sw.BUF == 0:
+                        cx.bump("stream_ends_on_a_staging_buffer_boundary")
                 cx.bump("workloads")
                 cx.bump("stream_gt_64k" if size > sw.BUF else "stream_le_64k")
                 if size > 1 << 20:
